@@ -1,4 +1,4 @@
-CONSTANTS Hosts = {1, 2, 3, 4, 5}  Weights = {1}  StratSet = {"rr"}  WtSet = {FALSE}  RefreshLists = {}  Codes = {0}
+CONSTANTS Hosts = {1, 2, 3, 4, 5}  Types = {0, 1}  Weights = {1}  StratSet = {"rr"}  WtSet = {FALSE}  RefreshLists = {}  Codes = {0}
 CONSTANT Gs = {1, 2, 3, 4, 5, 6, 7, 8}
 SPECIFICATION TraceSpec
 INVARIANT MembersOK
